@@ -592,6 +592,7 @@ def run(ctx):
     corpus = load_corpus()
     run_api(ctx, corpus)
     run_programs(ctx, corpus)
+    run_faildispatch(ctx)
     run_sweep(ctx)
     ctx.cov["sweep"] = ("W: a seeded sample of guarded programs (main steps valid inside and outside functions) re-run as identical text under "
                         "brush and bash in the contexts %s; under the neutral options %s; and under %s with bash in the same mode as oracle; "
@@ -714,6 +715,7 @@ def check_programs(ctx, progs, verbose=False, clause_of=None):
     res = lib.pmap(both, list(zip(progs, b_scripts)), workers=8)
     rc = 0
     nviol = 0
+    nprop = 0
     for (tag, steps), ops, m, w, ss, bs, so, (rb, ro) in zip(progs, flat, m1, wraps, s_scripts, b_scripts, souts, res):
         ks = kinds_of(steps)
         ctx.count(("P", bs), nontrivial=len(set(ks)) >= 3, bucket="prog_" + tag)
@@ -733,7 +735,8 @@ def check_programs(ctx, progs, verbose=False, clause_of=None):
                 ctx.violation("scope-stack model and brush (in-process, __dump) disagree at probe %d (correspondence broken)" % at,
                               dict(case, in_process_script=ss, brush=sm[at:at + 1], model=mm[at:at + 1]), kind="correspondence")
             rc = 1
-            continue
+            if rb is None:
+                continue            # (otherwise the property itself is still decided below, on the binary against bash)
         if rb is None:
             continue
         # B: brush binary vs bash vs model view
@@ -756,6 +759,20 @@ def check_programs(ctx, progs, verbose=False, clause_of=None):
             else:
                 ctx.violation(what, dict(case, bash_stderr=ro["err"][-400:]))
                 rc = 1
+            continue
+        # intrinsic: a command that failed leaves no trace of its temporary assignments — the probe after it equals the probe before it
+        undone = True
+        for i, (_, _, st) in enumerate(step_paths(steps)):
+            if st.get("undo") and i > 0 and pb[i] != pb[i - 1]:
+                undone = False
+                if nprop < 10:
+                    nprop += 1
+                    ctx.violation("temporary assignment not undone after a failed command `%s` (probe %d): before view %s child %s; after view %s child %s"
+                                  % (st["sh"], i, show_map(pb[i - 1][0]), show_map(pb[i - 1][1]), show_map(pb[i][0]), show_map(pb[i][1])),
+                                  dict(case, probe=i, bash_view=show_map(po[i][0]), bash_child=show_map(po[i][1])))
+                rc = 1
+                break
+        if not undone:
             continue
         for i, ((vb, eb), (vo, eo), d) in enumerate(zip(pb, po, md)):
             scopes_t, mv, mx = model_view(d)
@@ -788,6 +805,150 @@ def check_programs(ctx, progs, verbose=False, clause_of=None):
         ctx.sample({"mode": "P", "script": b_scripts[0][:600]})
     return rc
 
+
+
+# ------------------------------------------------------------------------------------------------
+# F: failing dispatch path x temporary assignment.  `x=tmp cmd` where cmd fails in each way a simple command can
+# fail (before its body runs / during / after): the temporary binding must be gone afterwards on every one of them.
+# Same step format as above, so each program goes through S (whole scope stack, in-process), B (brush binary vs bash
+# vs the model's view and child environment) and, for the steps marked `undo`, the intrinsic predicate
+# "the probe after the failed call equals the probe before it" evaluated on brush's own output.
+
+F_NOCLOB = "/tmp/c09-noclobber-target"
+NOOP = {"sh": ":", "ops": ["pu:c", "po:c"], "k": "noop"}
+# kind -> (definition / setup lines, command text after the prefix, does a function body run, usable inside a caller function)
+F_KINDS = {
+    "defredir-nodir": (["bf1() { :; } > /nonexistent-c09/out"], "bf1", False, True),
+    "defredir-in-missing": (["bf2() { :; } < /nonexistent-c09/in"], "bf2", False, True),
+    "defredir-badfd": (["bf3() { :; } >&9"], "bf3", False, True),
+    "defredir-second-fails": (["bf4() { :; } 2>/dev/null > /nonexistent-c09/out"], "bf4", False, True),
+    "defredir-noclobber": (["set -C", ": >| " + F_NOCLOB, "bf5() { :; } > " + F_NOCLOB], "bf5", False, True),
+    "defredir-nodir-args": (["bf6() { :; } > /nonexistent-c09/$1"], "bf6 p q", False, True),
+    "callredir-function": (["gf() { :; }"], "gf > /nonexistent-c09/out", False, True),
+    "callredir-builtin": ([], "true > /nonexistent-c09/out", False, True),
+    "callredir-special": ([], ": > /nonexistent-c09/out", False, True),
+    "callredir-external": ([], "/bin/true < /nonexistent-c09/in", False, True),
+    "not-found": ([], "nosuchcmd_c09 arg", False, True),
+    "body-false": (["bf7() { false; }"], "bf7", True, True),
+    "body-return": (["bf8() { local z=1; return 3; }"], "bf8", True, True),
+    "body-readonly-write": (["readonly fr=1", "bf9() { fr=2; echo not-reached; }"], "bf9", True, False),
+    "body-arith-error": (["bf10() { : $(( 1/0 )); echo not-reached; }"], "bf10", True, False),
+    "body-local-readonly-write": (["bf11() { local -r q=1; q=2; echo not-reached; }"], "bf11", True, False),
+    "body-failing-redirect": (["bf12() { local z=1; : > /nonexistent-c09/out; }"], "bf12", True, True),
+    "builtin-cd": ([], "cd /nonexistent-c09", False, True),
+    "builtin-dot-missing": ([], ". /nonexistent-c09/f", False, True),
+    "builtin-eval-false": ([], "eval false", False, True),
+    "external-false": ([], "/bin/false", False, True),
+    "external-not-executable": ([], "/etc/passwd", False, True),
+}
+F_PRIORS = ["unset", "global", "exported", "ro-other"]
+F_CONTEXTS = ["top", "fn-local", "fn-nolocal", "fn2-local"]
+
+
+def f_call(kind, name="x", val="tmp", ro_other=False):
+    _, cmd, body, _ = F_KINDS[kind]
+    items = [(name, val)] + ([("u", "z")] if ro_other else [])
+    pre = " ".join("%s=%s" % it for it in items)
+    pt = "pt:" + "&".join("%s~%s" % (n, w_lit(v)) for n, v in items)
+    return {"sh": "%s %s" % (pre, cmd), "ops": [pt] + (["pu:l", "po:l"] if body else []) + ["po:c"], "k": "fail-" + kind, "undo": True}
+
+
+def f_defs(kinds):
+    out, seen = [], set()
+    for kind in kinds:
+        for line in F_KINDS[kind][0]:
+            if line not in seen:
+                seen.add(line)
+                out.append(w_act(line, [], "setup"))
+    return out
+
+
+def f_prior(prior):
+    if prior == "global":
+        return [w_act("x=gx", ["as:x:-:sgx:-"], "assign")]
+    if prior == "exported":
+        return [w_act("export x=ex", ["pu:c", "ea:x:sex:-", "po:c"], "export")]
+    if prior == "ro-other":
+        return [w_act("x=gx", ["as:x:-:sgx:-"], "assign"), w_act("readonly u=ro", ["pu:c", "de:u:-:r:sro:-", "po:c"], "readonly")]
+    return []
+
+
+def f_wrap(core, context, fname="c"):
+    """the core steps at top level, or inside a caller function (with / without a local x; two callers deep)"""
+    if context == "top":
+        return core
+    loc = [w_act("local x=lx", ["pu:c", "de:x:-:l:slx:f", "po:c"], "local")] if "nolocal" not in context else \
+          [w_act("local y=ly", ["pu:c", "de:y:-:l:sly:f", "po:c"], "local")]
+    inner = {"call": fname + "0", "body": loc + core, "pre": None, "k": "call"}
+    if context.startswith("fn2"):
+        inner = {"call": fname + "1", "body": [w_act("local t=lt", ["pu:c", "de:t:-:l:slt:f", "po:c"], "local"), inner, dict(NOOP)],
+                 "pre": ("y", "o", "y=o", "pt:y~so"), "k": "call-prefix"}
+    return [inner, w_act("x=after", ["as:x:-:safter:-"], "assign")]
+
+
+def f_second(i=0):
+    """an ordinary function called with a temporary assignment of its own (shows scope-stack damage left by the step before)"""
+    return {"call": "g%d" % i, "body": [w_act("local m=1", ["pu:c", "de:m:-:l:s1:f", "po:c"], "local")], "pre": ("y", "t", "y=t", "pt:y~st"), "k": "call-prefix"}
+
+
+def f_exhaustive():
+    out = []
+    for kind in F_KINDS:
+        for prior in F_PRIORS:
+            for context in F_CONTEXTS:
+                if context != "top" and not F_KINDS[kind][3]:
+                    continue        # a fatal error in the body: bash unwinds to the top level, brush to the caller (error flow, not scoping)
+                ro = prior == "ro-other"
+                core = [f_call(kind, ro_other=ro), w_act("x=later", ["as:x:-:slater:-"], "assign"), f_second(0),
+                        f_call(kind, val="tmp2", ro_other=ro), f_second(1)]
+                out.append(("fail-dispatch", f_defs([kind]) + f_prior(prior) + f_wrap(core, context)))
+    return out
+
+
+def f_random(rng):
+    kinds = [rng.choice(list(F_KINDS)) for _ in range(rng.randint(2, 4))]
+    context = rng.choice(F_CONTEXTS)
+    if context != "top":
+        kinds = [k for k in kinds if F_KINDS[k][3]] or ["defredir-nodir"]
+    core, ng = [], 0
+    for kind in kinds:
+        r = rng.random()
+        if r < 0.35:
+            n = rng.choice(["x", "y", "t"])
+            v = rng.choice(["1", "ab", "cD", ""])
+            core.append(w_act("%s=%s" % (n, sh_lit(v)), ["as:%s:-:%s:-" % (n, w_lit(v))], "assign"))
+        elif r < 0.5:
+            n = rng.choice(["x", "t"])
+            core.append(w_act("export %s" % n, ["pu:c", "en:%s:e" % n, "po:c"], "export"))
+        elif r < 0.6:
+            n = rng.choice(["x", "t"])
+            core.append(w_act("unset %s" % n, ["pu:c", "un:%s" % n, "po:c"], "unset"))
+        core.append(f_call(kind, name=rng.choice(["x", "x", "t", "y"]), val=rng.choice(["tmp", "07", "Ab"])))
+        if rng.random() < 0.5:
+            core.append(f_second(ng))
+            ng += 1
+    core.append(w_act("x=later", ["as:x:-:slater:-"], "assign"))
+    core.append(f_second(ng))
+    return ("fail-dispatch-rand", f_defs(kinds) + f_prior(rng.choice(F_PRIORS[:3])) + f_wrap(core, context))
+
+
+def run_faildispatch(ctx):
+    progs = f_exhaustive()
+    rng = random.Random(ctx.rng.getrandbits(48))
+    for _ in range(ctx.size(120, 2500)):
+        progs.append(f_random(rng))
+    try:
+        check_programs(ctx, progs)
+    finally:
+        try:
+            os.unlink(F_NOCLOB)
+        except OSError:
+            pass
+    ctx.cov["fail_dispatch"] = ("F: every way a simple command with a temporary assignment can fail (%s) x state of the name before (%s) x calling "
+                                "context (%s), twice per program with a plain assignment and an ordinary `y=t g` call in between (seed independent), "
+                                "plus seeded random sequences of such calls; probed through declare -p and a child's env after every step, "
+                                "brush vs bash vs model, and probe-after == probe-before on brush for every failed call"
+                                % (", ".join(F_KINDS), ", ".join(F_PRIORS), ", ".join(F_CONTEXTS)))
 
 
 # ------------------------------------------------------------------------------------------------
